@@ -168,7 +168,7 @@ class Runner:
         self.n += 1
         if code != 0:
             if base:
-                raise C.Infra(f"{what}: in-process run failed with exit {code}: {err[:400]}")
+                raise C.ProgramAbort(f"{what}: in-process run failed with exit {code}: {err[:400]}")
             self.chk.violation(f"{what}: the program fails (exit {code}) although the plain single-core run succeeds",
                                {"what": what, "argv": argv, "exit": code, "error": err[:500]}, "C08/run/status")
         self.raw_header = [l for l in out.split("\n") if l.startswith("#")]
